@@ -239,10 +239,7 @@ func TestExtraPaddingDiagnosis(t *testing.T) {
 	for i := 0; i <= pad; i++ {
 		pl = append(pl, byte(pad))
 	}
-	sig, _ := asymSign(p, nil, snd.Key, pl)
-	_ = sig
-	// (sign with crypto/rand through BuildAsymChunk's helper)
-	sig, err = asymSign(p, randReader{}, snd.Key, pl)
+	sig, err := asymSign(p, randReader{}, snd.Key, pl)
 	if err != nil {
 		t.Fatal(err)
 	}
